@@ -187,6 +187,7 @@ async def run_e2e(job):
     mode = job['mode']
     sim = simslave.SimSlave(name, job['ports'], device=job.get('device'), flags=job.get('flags', ['listen']),
                             latencies=[x / 1000.0 for x in job.get('lat', [10])], session_floor=job.get('session_floor', 10))
+    sim.use_refs = bool(job.get('refs'))
     await start_master(M, sim)
     vc_log = []
     M.core_events.register_handler(make_recorder(M, vc_log, name + '.'))
@@ -333,6 +334,9 @@ async def run_e2e(job):
     side_tasks = []      # master / device commands started by 'at' triggers, running while a request is in flight
     triggers = []
 
+    SYNC_OPS = {'sv': sim.set_value, 'sa': sim.set_port_attr, 'sadd': sim.add_port, 'srm': sim.remove_port,
+                'sd': sim.set_device_attr, 'sfull': sim.full_update, 'sdel': sim.del_port_attr, 'svburst': sim.burst}
+
     def on_request(method, path):
         for tr in triggers:
             if tr['armed'] and tr['m'] == method and re.fullmatch(tr['p'], path.rstrip('/') or '/'):
@@ -340,6 +344,9 @@ async def run_e2e(job):
                     tr['skip'] -= 1
                     continue
                 tr['armed'] = False
+                if tr['op'][0] in SYNC_OPS:      # a change of the device itself happens before the device answers this request
+                    SYNC_OPS[tr['op'][0]](*tr['op'][1:])
+                    continue
                 side_tasks.append(asyncio.ensure_future(run_op(tr['op_index'], tr['op'][0], tr['op'][1:], in_flight=[method, path])))
     sim.request_hook = on_request
 
@@ -353,6 +360,8 @@ async def run_e2e(job):
                 sim.add_port(args[0])
             elif kind == 'srm':
                 sim.remove_port(args[0])
+            elif kind == 'svburst':      # many value changes of one port in a row
+                sim.burst(*args)
             elif kind == 'sdel':         # an optional attribute disappears from a port of the device
                 sim.del_port_attr(args[0], args[1])
             elif kind == 'sddel':
